@@ -150,8 +150,13 @@ func runProc(timeout time.Duration, env []string, bin string, args ...string) pr
 // genBatch asks the plain build for the specs and reference tables of batch bn.
 func (sp *simProc) genBatch(classified string, seed uint64, tier string, bn int, out string) {
 	from, to := batchRange(bn)
-	po := runProc(5*time.Minute, goEnv(""), sp.b.SimPlain, "gen", "-corpus", classified, "-seed", strconv.FormatUint(seed, 10),
-		"-tier", tier, "-from", strconv.Itoa(from), "-to", strconv.Itoa(to), "-batch", strconv.Itoa(bn), "-out", out)
+	args := []string{"gen", "-corpus", classified, "-seed", strconv.FormatUint(seed, 10),
+		"-tier", tier, "-from", strconv.Itoa(from), "-to", strconv.Itoa(to), "-batch", strconv.Itoa(bn), "-out", out}
+	if bn%8 == 7 {
+		// soak batch: 50 runs in one process, all on one ecosystem
+		args = append(args, "-soak", strconv.Itoa(bn/8))
+	}
+	po := runProc(5*time.Minute, goEnv(""), sp.b.SimPlain, args...)
 	if po.err != nil {
 		fail2("reference generator failed on batch %d: %v\n%s", bn, po.err, tail(po.stderr, 4000))
 	}
@@ -424,6 +429,8 @@ func (a *agg) addBatch(b *Batch, br *BatchResult, keepSamples int) {
 		t.Naps += s.Naps
 		t.ChanOps += s.ChanOps
 		t.LeakedTasks += s.LeakedTasks
+		t.Selects += s.Selects
+		t.TimersFired += s.TimersFired
 		if s.MaxOpSteps > t.MaxOpSteps {
 			t.MaxOpSteps = s.MaxOpSteps
 		}
